@@ -288,6 +288,58 @@ def run_cross5(case):
     return session.run_cross_resume(case, lambda: [schedule_monitor("sched", resumed=True)])
 
 
+def run_ladder5(case):
+    """Scale ladder: one reweighting transition from pools of 3e4 .. 1.3e5 samples (beyond any block / thinning threshold a refactoring would pick),
+    warm-up pools and mid-run pools, ESS and volume-variation mode, with the same oracle as the small lattice."""
+    from tempest.steps.reweight import Reweighter
+    from scipy.stats import norm
+    from mc.refmodels import mis
+
+    res = Res()
+    n, W, d = case["n"], case["W"], case["d"]
+    N = n * W
+    q = (np.arange(N) + 0.5) / N
+    perm = np.argsort((np.arange(N) * 0.6180339887) % 1.0)
+    base0 = -0.5 * norm.ppf(q) ** 2 * (1.0 + 0.3 * np.cos(7 * q))
+    srt = np.sort(base0)
+    orders = {"golden": base0[perm], "sorted": srt}
+    for period in (2, 3, 4, 8):  # every period-th sample comes from the best 1/period of the pool: any stride-thinned sub-pool is unrepresentative
+        o = np.empty(N)
+        top = srt[::-1]
+        idx_top = np.arange(0, N, period)
+        o[idx_top] = top[: len(idx_top)]
+        rest = np.setdiff1d(np.arange(N), idx_top)
+        o[rest] = top[len(idx_top):][perm[: len(rest)] % len(rest)] if False else top[len(idx_top):]
+        orders[f"period{period}"] = o
+    for scale, oname in ((0.3, "golden"), (3.0, "golden"), (40.0, "golden"), (3.0, "sorted"), (3.0, "period2"), (3.0, "period3"), (40.0, "period4"), (3.0, "period8"), (0.3, "period2")):
+        base = orders[oname]
+        for hist in ("warm-up", "mid-run"):
+            ell = base * scale
+            if hist == "warm-up":
+                betas, logzs = [0.0] * W, [0.0] * W
+            else:
+                betas = [0.0] * (W // 2) + [min(1.0, 0.02 * (k + 1) / scale) for k in range(W - W // 2)]
+                logzs = [0.0] * (W // 2) + [float(mis.logw_float([ell], [0.0], [0.0], b)[1]) for b in betas[W // 2:]]
+            for ratio, vv in ((2.0, None), (float(W) / 2, None), (2.0, 0.5), (1.0, 0.05)):
+                cc = dict(case, only=[scale, oname, hist, ratio, vv])
+                if case.get("only") and case["only"] != [scale, oname, hist, ratio, vv]:
+                    continue
+                st = build([n] * W, betas, logzs, ell, d)
+                rw = Reweighter(st, None, n_particles=n, ess_ratio=ratio, volume_variation=vv, ESS_TOLERANCE=0.01, BETA_TOLERANCE=1e-4)
+                try:
+                    w = rw.run()
+                except Exception as e:
+                    res.violate(f"ladder:raises:{type(e).__name__}", f"Reweighter.run raised {e!r} on a pool of {N} samples (n={n}, {W} batches, {hist}, scale {scale}, ratio {ratio}, vv {vv})", cc)
+                    continue
+                res.evals += 1
+                res.trans += 1
+                for key, msg in reweight_errors(st, n, ratio, vv, float(betas[-1]), w):
+                    res.violate(f"ladder:{key}", msg + f" [pool of {N} samples ({oname} order): n={n}, {W} batches, {hist}, likelihood scale {scale}, ess_ratio={ratio}, vv={vv}]", cc)
+                res.outcome(("ladder", n, W, d, scale, oname, hist, ratio, vv, float(st._current["beta"])), nontrivial=True)
+    res.states += 1
+    return res
+
+
 def run_session5(case):
     """One sampler object through the longer operation patterns (save / load / complete run / aborted iteration / pickle round trip / deep copy,
     incl. the lockstep copy-versus-original step): every reweighting transition satisfies the schedule oracle."""
@@ -295,7 +347,7 @@ def run_session5(case):
     return session.run_case(case, lambda: [schedule_monitor("sched")], oracle=None, key_pred=lambda k: k.startswith("sched:") or k.startswith("session:copy") or k.startswith("session:deepcopy"))
 
 
-KINDS = {"session": run_session5, "cross": run_cross5, "duo": run_duo, "edge": run_edge, "stateful": run_stateful, "block": run_block, "rw1": run_rw1, "first": run_first, "pipe": run_pipe, "pipe1": run_pipe1}
+KINDS = {"ladder": run_ladder5, "session": run_session5, "cross": run_cross5, "duo": run_duo, "edge": run_edge, "stateful": run_stateful, "block": run_block, "rw1": run_rw1, "first": run_first, "pipe": run_pipe, "pipe1": run_pipe1}
 
 FACTORS = [
     ("sample", ["tpcn", "rwm"]),
@@ -335,6 +387,7 @@ def plan(ctx):
     dcfg = dict(n_particles=8, d=1, ess_ratio=1.0, n_total=10 ** 6, eval="scalar", clustering=False)
     duo = [{"kind": "duo", "cfg": dict(dcfg, vv=vv), "base": ctx.seed, "depth": 5 if th else 4, "shard": [sh, 8]} for vv in (None, 0.5) for sh in range(8)]
     ctx.explore("two-samplers-interleaved", duo)
+    ctx.explore("scale-ladder", [{"kind": "ladder", "n": n_, "W": W_, "d": 2} for n_, W_ in ((4096, 9), (2048, 20), (8192, 8)) + (((16384, 8),) if th else ())])
     from mc.pipeline import LARGE
     ctx.explore("large-scopes", [{"kind": "pipe1", "cfg": c, "base": ctx.seed + b} for c in LARGE for b in ((0, 4) if th else (0,))])
     ctx.explore("session-patterns", [{"kind": "session", "cfg": dict(dcfg, vv=vv, ess_ratio=er), "base": ctx.seed, "depth": 9, "patterns": [sh, 4]} for vv, er in ((None, 1.0), (0.5, 2.0)) for sh in range(4)])
